@@ -23,14 +23,23 @@ NP = {"float32": np.float32, "float64": np.float64}
 SCALES_ALL = [1e-6, 1e-4, 1e-2, 0.1, 1.0, 1.0, 1.0, 10.0, 1e2, 1e3, 1e4, 1e5, 1e6]
 
 
-def shape_s(max_n: int = 64, min_n: int = 1):
-    """[N, *trail]: N=1 rarely, small N most of the time, up to max_n; trailing shape (), (M), (M,K) with M,K in [1,4]"""
+LARGE_N = [257, 1000, 4097, 5000, 8193, 12000, 20000, 20000]
+
+
+def shape_s(max_n: int = 64, min_n: int = 1, large: int = 0):
+    """[N, *trail]: N=1 rarely, small N most of the time, up to max_n; trailing shape (), (M), (M,K) with M,K in [1,4].
+    With ``large`` = m > 0, one case in m has a long sample (N from LARGE_N, up to 20000 outcomes, no trailing shape or one
+    trailing dimension of 2): library kernels (topk, kthvalue, quantile, sort) switch algorithms with the size."""
     lo = max(min_n, 2)
     n = st.one_of(st.integers(lo, 4), st.integers(lo, 8), st.integers(lo, 8), st.integers(lo, 16),
                   st.integers(lo, max_n), st.integers(min_n, max(min_n, 3)))
     m = st.sampled_from([1, 2, 2, 3, 3, 4])
     trail = st.one_of(st.just([]), st.just([]), st.just([]), st.lists(m, min_size=1, max_size=1), st.lists(m, min_size=2, max_size=2))
-    return st.tuples(n, trail).map(lambda t: [t[0]] + t[1])
+    small = st.tuples(n, trail).map(lambda t: [t[0]] + t[1])
+    if not large:
+        return small
+    big = st.tuples(st.sampled_from(LARGE_N), st.sampled_from([[], [], [], [2]])).map(lambda t: [t[0]] + t[1])
+    return st.integers(0, large - 1).flatmap(lambda i: big if i == 0 else small)
 
 
 def unit_elements(dtype: str):
@@ -72,7 +81,8 @@ def sample_spec(draw, dtype: str, shape: List[int], scales: Optional[List[float]
             draw(st.one_of(st.integers(-4, 4).map(float), st.sampled_from([0.5, -0.25, 1.5]), fl(-2.0, 2.0, dtype)))
     else:
         spec["seed"] = draw(st.integers(0, 2 ** 31 - 1))
-        spec["law"] = draw(st.sampled_from(["normal", "normal", "cauchy", "ties"]))
+        # long samples: ties are the interesting class (selection by threshold vs by count)
+        spec["law"] = draw(st.sampled_from(["normal", "ties", "ties", "cauchy"] if shape[0] > 256 else ["normal", "normal", "cauchy", "ties"]))
         spec["positive"] = positive
     return spec
 
